@@ -120,9 +120,15 @@ where
     FrameFn: FnOnce(&str, u32) -> T2 + Sync,
     T2: Future<Output = Result<FrameIO, Error>>,
 {
+    // Read the request without holding the context lock: the client may send it slowly or
+    // never, and everything that walks the live contexts (the API, and through the registry
+    // mutex it holds meanwhile, every new connection) would wait for this client.
+    let mut stream = ctx.write().await.take_client_stream();
+    let request = HttpRequest::read_from(&mut stream).await;
     let mut ctx_lock = ctx.write().await;
+    ctx_lock.set_client_stream(stream);
+    let request = request?;
     let socket = ctx_lock.borrow_client_stream().unwrap();
-    let request = HttpRequest::read_from(socket).await?;
     tracing::trace!("request={:?}", request);
     if request.method.eq_ignore_ascii_case("CONNECT") {
         let protocol = request.header("Proxy-Protocol", "tcp");
